@@ -37,6 +37,8 @@ func genC02(c *ctx) {
 	p.CrossPath = true
 	p.Paths = 1 + c.n(3)
 	p.HalfTyped = []float64{0, 0.03, 0.08}[c.n(3)]
+	p.DistinctNames = c.chance(0.5)
+	p.Terraformy = c.chance(0.5)
 	c.makeWorld(p)
 	stride := 5
 	if c.thorough() {
@@ -48,6 +50,13 @@ func genC02(c *ctx) {
 		n = 8
 	}
 	c.quiescentStates(n, n, chk)
+	// cross-path lookups while one of the paths cannot be read
+	if np := len(c.sc.World.Paths); np > 1 {
+		c.add(&h.Event{K: "quiesce"})
+		c.add(&h.Event{K: "fault", Fault: "reader_error", Arg: int64(c.n(np)), On: true})
+		c.add(&h.Event{K: "check", Check: &h.Check{Key: c.key(), Stride: 1, Kinds: []string{"goto_def", "find_refs", "links", "symbols_ws"}}})
+		c.add(&h.Event{K: "quiesce"})
+	}
 }
 
 func genC06(c *ctx) {
